@@ -640,5 +640,6 @@ func extractC09() *lean {
 	l.def("keyLookup", "String", strconv.Quote(keyLookup), keyLookup)
 	c09EntryFacts(l, amb)
 	c09ManagerFacts(l)
+	c09CommitFacts(l, amb)
 	return l
 }
